@@ -125,6 +125,62 @@ def bind_call(call, params, defaults=None):
     return out
 
 
+class _Subst(ast.NodeTransformer):
+    def __init__(self, mapping):
+        self.mapping = mapping
+
+    def visit_Name(self, node):
+        if isinstance(node.ctx, ast.Load) and node.id in self.mapping:
+            return copy.deepcopy(self.mapping[node.id])
+        return node
+
+
+def substitute(node, mapping):
+    """expression with the names of `mapping` replaced by expression nodes"""
+    return ast.fix_missing_locations(_Subst(mapping).visit(copy.deepcopy(node)))
+
+
+def inline_locals(fn, expr):
+    """`expr` with every single-assignment simple local of fn replaced by its defining expression (to a fixpoint)"""
+    defs = {}
+    counts = {}
+    for st in ast.walk(fn):
+        if isinstance(st, ast.Assign) and len(st.targets) == 1 and isinstance(st.targets[0], ast.Name):
+            counts[st.targets[0].id] = counts.get(st.targets[0].id, 0) + 1
+            defs[st.targets[0].id] = st.value
+        elif isinstance(st, (ast.AugAssign, ast.For)) :
+            for nm in _stored_names(st):
+                counts[nm] = counts.get(nm, 0) + 2
+    params = {a.arg for a in fn.args.args}
+    defs = {k: v for k, v in defs.items() if counts.get(k) == 1 and k not in params}
+    for _ in range(6):
+        new = substitute(expr, defs)
+        if ast.unparse(new) == ast.unparse(expr):
+            break
+        expr = new
+    return expr
+
+
+def inline_helper(mod, value):
+    """texts of the possible values of `value`; a call `h(args)` of a same-module function `h` whose body is only
+    `return`s (possibly under if/else) is replaced by h's return expressions with the parameters substituted"""
+    if isinstance(value, ast.Call) and isinstance(value.func, ast.Name) and not value.keywords:
+        try:
+            h = get_def(mod, value.func.id)
+        except Untranslatable:
+            return [ast.unparse(value)]
+        params = [a.arg for a in h.args.args]
+        if len(value.args) != len(params):
+            return [ast.unparse(value)]
+        body_ok = all(isinstance(st, (ast.Return, ast.If)) or (isinstance(st, ast.Expr) and isinstance(st.value, ast.Constant))
+                      for st in h.body)
+        if not body_ok:
+            return [ast.unparse(value)]
+        m = dict(zip(params, value.args))
+        return [ast.unparse(substitute(r, m)) for r in find_returns(h)]
+    return [ast.unparse(value)]
+
+
 CONV = {
     'np.radians': lambda a: f'(({a[0]} * pi) / (Num.ofInt (180)))',
     'np.deg2rad': lambda a: f'(({a[0]} * pi) / (Num.ofInt (180)))',
@@ -250,13 +306,22 @@ def generate(repo):
             if args != ['lambda_', 'd', 'n', 'theta']:
                 raise Untranslatable(f'signature of {pyname}: {args}')
             base = {'lambda_': 'lam', 'd': 'd', 'n': 'n', 'np.pi': 'pi', 'np.cos(theta)': 'cost'}
+            # the local that holds the phase thickness, whatever it is called: the one name whose sin AND cos are taken
+            trig = {}
+            for c in ast.walk(fn):
+                if isinstance(c, ast.Call) and ast.unparse(c.func) in ('np.sin', 'np.cos') and len(c.args) == 1:
+                    if ast.unparse(c.args[0]) != 'theta':
+                        trig.setdefault(ast.unparse(c.args[0]), set()).add(ast.unparse(c.func))
+            if len(trig) != 1 or set(trig[next(iter(trig))]) != {'np.sin', 'np.cos'} or not next(iter(trig)).isidentifier():
+                raise Untranslatable(f'expected sin and cos of exactly one phase variable, found {sorted(trig)}')
+            ph = next(iter(trig))
             env = straight_env(fn.body, base)
-            if 'beta' not in env:
-                raise Untranslatable('no translatable assignment to beta')
-            beta = env['beta']
-            # the trigonometric functions must be taken of beta: sinb, cosb = np.sin(beta), np.cos(beta)
+            if ph not in env:
+                raise Untranslatable(f'no translatable assignment to {ph}')
+            beta = env[ph]
+            # the trigonometric functions are taken of that phase: sinb, cosb = np.sin(beta), np.cos(beta)
             env2 = straight_env(fn.body, {**base, '-1j': 'mI', '1j': '(-mI)'},
-                                after={'beta': {'np.sin(beta)': 'sinb', 'np.cos(beta)': 'cosb'}})
+                                after={ph: {f'np.sin({ph})': 'sinb', f'np.cos({ph})': 'cosb'}})
             (ret,) = find_returns(fn)
             ents = [Tr(env2, 'num').expr(e) for e in matrix_literal(ret)]
             for e in ents:
@@ -306,10 +371,14 @@ def generate(repo):
             t4 = tables('term4')
             if len(t4) != 2 or t4[0] != t4[1]:
                 raise Untranslatable(f'term4 tables of the batched and scalar branches differ or are missing: {t4}')
-            # term3 = ordered product of the list (reduce(np.matmul, ...)) or its single element
-            t3 = sorted(ast.unparse(v) for v in assigns('term3'))
-            if t3 != sorted(['reduce(np.matmul, characteristic_matrices)', 'characteristic_matrices[0]']):
-                raise Untranslatable(f'term3: {t3}')
+            # term3 = ordered product of the list (reduce(np.matmul, ...), or its single element), possibly through a
+            # same-module helper whose return expressions are inlined
+            t3 = set()
+            for v in assigns('term3'):
+                t3 |= set(inline_helper(tf, v))
+            ok3 = {'reduce(np.matmul, characteristic_matrices)', 'characteristic_matrices[0]', 'functools.reduce(np.matmul, characteristic_matrices)'}
+            if not t3 or not t3 <= ok3 or not (t3 & {'reduce(np.matmul, characteristic_matrices)', 'functools.reduce(np.matmul, characteristic_matrices)'}):
+                raise Untranslatable(f'term3: {sorted(t3)}')
             # term12 = term1 * term2 (np.dot with a scalar / tensordot over the batch axis)
             t12 = sorted(ast.unparse(v) for v in assigns('term12'))
             if t12 != sorted(['np.tensordot(term2, term1, axes=(0, 0))', 'np.dot(term1, term2)']):
